@@ -176,14 +176,27 @@ impl Storable for AnnotationDataSet {
     fn merge(&mut self, other: Self) -> Result<(), StamError> {
         let merge = self.config.merge;
         self.config.merge = true; //enable merge mode for underlying keys and data
+        // the data of the other definition refers to its keys by the handles they had there:
+        // keep track of the handle each key has (or gets) in this set
+        let mut keymap: Vec<Option<DataKeyHandle>> = Vec::with_capacity(other.keys.len());
         for key in other.keys {
             if let Some(key) = key {
-                self.insert(key.unbind())?;
+                keymap.push(Some(self.insert(key.unbind())?));
+            } else {
+                keymap.push(None);
             }
         }
         for data in other.data {
             if let Some(data) = data {
-                self.insert(data.unbind())?;
+                let mut data = data.unbind();
+                if let Some(Some(key)) = keymap.get(data.key.as_usize()) {
+                    data.key = *key;
+                } else {
+                    return Err(StamError::HandleError(
+                        "AnnotationDataSet::merge(): data refers to a key that is not in its set",
+                    ));
+                }
+                self.insert(data)?;
             }
         }
         self.config.merge = merge; //reset merge mode
